@@ -44,6 +44,8 @@ val fold_left : ('a1 -> 'a2 -> 'a1) -> 'a2 list -> 'a1 -> 'a1
 
 val existsb : ('a1 -> bool) -> 'a1 list -> bool
 
+val forallb : ('a1 -> bool) -> 'a1 list -> bool
+
 val filter : ('a1 -> bool) -> 'a1 list -> 'a1 list
 
 type 'a map0 = nat -> 'a option
@@ -353,7 +355,8 @@ type jstate =
 
 type sys = { actors : actor map0; handles : (aid * hkind) map0;
              ops : op map0; now : nat; joins : (aid * jstate) map0;
-             reg : aid map0; rlock : bool; rpend : nat }
+             reg : aid map0; rlock : bool; rpend : nat; alist : aid list;
+             pending : oid list }
 
 val set_a_mb : mbox -> actor -> actor
 
@@ -421,6 +424,10 @@ val set_rlock : bool -> sys -> sys
 
 val set_rpend : nat -> sys -> sys
 
+val set_alist : aid list -> sys -> sys
+
+val set_pending : oid list -> sys -> sys
+
 val del : 'a1 map0 -> nat -> 'a1 map0
 
 val init : sys
@@ -432,6 +439,12 @@ val put_actor : sys -> aid -> actor -> sys
 val get_op : sys -> oid -> nat -> op res
 
 val put_op : sys -> oid -> op -> sys
+
+val add_pend : oid -> sys -> sys
+
+val del_pend : oid -> sys -> sys
+
+val add_actor : aid -> sys -> sys
 
 val over : mbox -> bool
 
@@ -510,6 +523,16 @@ val release_entry : sys -> nat -> sys res
 val reg_ret : sys -> oid -> op -> regk -> nat -> rval -> sys res
 
 val fresh_actor : spawn_cfg -> nat -> actor
+
+val due : nat -> nat option -> bool
+
+val timer_stable : nat option -> timer -> bool
+
+val actor_stable : nat option -> actor -> bool
+
+val op_stable : sys -> oid -> bool
+
+val stable : sys -> nat option -> bool
 
 val step : sys -> event -> sys res
 
